@@ -22,7 +22,7 @@ RULE = ('Engine A: lattice of experiment frames (5 shapes x noise patterns x n_p
         'day against the closed form (OLS + Kerman 2017 eq. 5); every layout variant gives the identical distribution; '
         'summary rows: lower = ppf(alpha), upper = ppf(1-alpha) or +inf, precision = estimate - lower, probability = '
         '1 - cdf(threshold), lower <= estimate <= upper (ordering only for levels > 0.5 when tails = 1, scope S1); '
-        'TBRMMDiagnostics.tbrfit on the same totals gives the same estimate and |t_sig| * scale half-width. '
+        'TBRMMDiagnostics.tbrfit on the same totals gives the same estimate and |t_sig| * scale half-width, on a fresh object and on an object that analysed other series (other control series; other treatment series of another length) before. '
         'Non-trivial = frame with >= 2 analysed days or a non-default layout; distinct = distinct case.')
 ASSUMPTIONS = ['value lattice: integer totals (multiples of 4) from 5 shapes + small noise patterns; comparisons at 1e-9 relative',
                'scipy.stats.t quantiles/CDF are trusted (common to implementation and oracle)',
@@ -158,6 +158,32 @@ def run_case(case):
         hw = stats.t.ppf(sig, ref['df']) * ref['scale'][-1]
         if not math.isclose(f.cihw, hw, rel_tol=1e-9):
             add('design-side-half-width', 'tbrfit cihw %r, |t_sig|*scale %r (sig=%s)' % (f.cihw, hw, sig))
+    # the same clause on a diagnostics object in a NON-INITIAL state: it has analysed another control series (and, in the
+    # second round, another treatment series of another length) before it is handed this frame's totals
+    par = TBRMMDesignParameters(n_test=ntd, iroas=1.0, sig_level=0.9)
+    xo = x0[:npre][::-1] * 0.5 + 16.0 * (np.arange(npre) % 3)
+    hw = stats.t.ppf(0.9, ref['df']) * ref['scale'][-1]
+    for rnd in (1, 2):
+        try:
+            if rnd == 1:
+                dg = TBRMMDiagnostics(y0[:npre], par)
+            else:
+                yo = np.concatenate([y0[:npre], y0[:2] + 8.0])
+                dg = TBRMMDiagnostics(yo, par)
+                xo2 = np.concatenate([xo, xo[:2]])
+                dg.x = xo2
+                dg.tbrfit(1.0, 2.0), dg.required_impact, dg.corr
+                dg.y = y0[:npre]
+            dg.x = xo
+            dg.tbrfit(float(np.mean(xt)) + 4.0, float(np.mean(yt))), dg.required_impact, dg.corr
+            dg.x = x0[:npre]
+            f = dg.tbrfit(float(np.mean(xt)), float(np.mean(yt)))
+        except Exception as e:
+            add('design-side-reused-object-raises-' + type(e).__name__, 'round %d: %s' % (rnd, str(e)[:120]))
+            continue
+        if not (math.isclose(f.estimate, ref['loc'][-1], rel_tol=1e-9, abs_tol=1e-7) and math.isclose(f.cihw, hw, rel_tol=1e-9)):
+            add('design-side-reused-object', 'round %d: a diagnostics object that analysed other series before gives tbrfit estimate %r / '
+                'half-width %r, closed form %r / %r' % (rnd, f.estimate, f.cihw, ref['loc'][-1], hw))
     seen = set()
     viol = [v for v in viol if not (v['key'] in seen or seen.add(v['key']))]
     return {'viol': viol, 'nontrivial': True, 'outcome': [npre, len(keep), len(viol)],
